@@ -41,8 +41,11 @@ def flows(ctx, dims=(1, 2, 3), conds=(None, 2)):
                 mk.append(("triangular-spline", lambda k: F.triangular_spline_flow(k, base_dist=base, cond_dim=cond, flow_layers=2, knots=4), 1e-6))
             if not ctx.quick or dim == 2:
                 mk.append(("bnaf", lambda k: F.block_neural_autoregressive_flow(k, base_dist=base, cond_dim=cond, flow_layers=1, nn_block_dim=3), 1e-4))
-            for name, f, tol in mk:
+            for i, (name, f, tol) in enumerate(mk):
                 key, k1 = jr.split(key)
+                # quick tier: half of the (factory, dim, cond) grid per run, rotating with the seed (thorough: all of it)
+                if ctx.quick and (i + dim + (cond is not None) + ctx.seed) % 2:
+                    continue
                 try:
                     flow = f(k1)
                 except Exception as e:  # a factory that cannot be constructed in this environment is not a property violation
